@@ -304,8 +304,14 @@ def cache_fields(L):
     return out
 
 
+def digest(x):
+    import hashlib
+    return hashlib.sha1(json.dumps(x, sort_keys=True, default=str).encode()).hexdigest()
+
+
 def project_cache(L):
-    return {f"{k[0]}:{k[1]}": {fld: ser(v, L) for fld, v in flds.items()} for k, flds in cache_fields(L).items()}
+    """projection of the cache state: per loaded file and field a digest of its canonical serialisation (compared with the pristine digests)"""
+    return {f"{k[0]}:{k[1]}": {fld: digest(ser(v, L)) for fld, v in flds.items()} for k, flds in cache_fields(L).items()}
 
 
 # ---------------------------------------------------------------------------------------------
@@ -334,7 +340,7 @@ def run_history(hist, L):
             except Exception as e:
                 r, res, exc = None, None, type(e).__name__ + ": " + str(e)[:100]
             held.append([r, res, False])
-            obs.append({"step": step, "result": res, "exc": exc, "args_unchanged": ser(args, L) == before, "cache": project_cache(L), "stale": stale(),
+            obs.append({"step": step, "result": digest(res), "exc": exc, "args_unchanged": ser(args, L) == before, "cache": project_cache(L), "stale": stale(),
                         "ver": held_args.get("ver", 0)})
         elif kind == "mutate":
             h = int(step[1])
